@@ -1,10 +1,12 @@
 #!/bin/bash
 # run_seeded.sh [extra check ids per mutant from meta]: applies every seeded change to /repo in turn, runs the check of the
 # property it breaks (quick tier), reverts.  Prints one line per change.  /repo must be clean.
+# SEEDED_FILTER=<regex> restricts the run to the matching directory names.
 cd /verif
 [ -n "$(git -C /repo status --short)" ] && { echo "/repo not clean"; exit 2; }
 for d in seeded/*/; do
   name=$(basename $d)
+  [ -n "$SEEDED_FILTER" ] && ! echo "$name" | grep -Eq "$SEEDED_FILTER" && continue
   id=${name%%-*}; id=${id:0:3}
   git -C /repo apply /verif/$d/patch.diff || { echo "$name: patch does not apply"; continue; }
   out=$(VERIF_DEV=1 ./check $id --tier quick 2>&1); rc=$?
